@@ -25,7 +25,7 @@ T_TEXT = ("ct_add_test(NAME t_one)\nfunction(${t_one})\n  #[[[\n  # A section.\n
           "ct_add_test(\"no name given\" EXPECTFAIL)\nfunction(${no_name})\nendfunction()\nadd_test(smoke prog --version)\n"
           "ct_add_test(EXPECTFAIL)\nmacro(${anon})\nendmacro()\n")
 A_TEXT = ("#[[[ @module\n# Module text of a.\n#]]\n\n#[[[\n# A class.\n#]]\ncpp_class(Widget Base Drawable Clickable Serializable Zed)\n  #[[[\n  # attr doc\n  #]]\n"
-          "  cpp_attr(Widget color red)\n  cpp_member(run Widget int args)\n  function(\"${run}\" self n)\n"
+          "  cpp_attr(Widget color red)\n  cpp_attr(Widget sizes 1 2 3)\n  cpp_attr(Widget label \"two words\" more)\n  cpp_member(run Widget int args)\n  function(\"${run}\" self n)\n"
           "    cmake_parse_arguments(R \"\" \"\" \"\" ${ARGN})\n  endfunction()\ncpp_end_class()\noption(WITH_X \"help\" ON)\n")
 
 
@@ -38,6 +38,7 @@ def layout():
         "dtree/sub/compat.cmake": "#[[[ @module shared.name\n# first\n#]]\nset(A 1)\n",
         "dtree/sub2/compat.cmake": "#[[[ @module shared.name\n# second\n#]]\nset(B 2)\n",
         "follow.yaml": "input:\n  follow_symlinks: true\n",
+        "dtree/core_impl.cmake": fsbox.cmake_content("core_impl"), "dtree/other_impl.cmake": fsbox.cmake_content("other_impl"),
         # plain_fn has the same declared parameter names as K's kfun but no keyword arguments
         "other/o1.cmake": fsbox.cmake_content("o1") + "\nfunction(plain_fn a)\nendfunction()\nmacro(plain_mac)\nendmacro()\n",
         "other/in/o2.cmake": T_TEXT,
@@ -76,6 +77,8 @@ def cfg_args(cfg, base):
         return ["-e", "zz.cmake", "-e", "o1.cmake", "-e", "deep/", "-e", "", "-e", "sub/b.cmake", "-e", "dtree/sub2/compat.cmake"]
     if cfg == "excl2":      # two sibling files and two sibling directories are rejected by one pattern each
         return ["-e", "*z.cmake", "-e", "sub*/"]
+    if cfg == "neg":        # a glob and a negation that re-includes one of its matches: the order of the patterns matters
+        return ["-e", "*_impl.cmake", "-e", "!core_impl.cmake", "-e", "zz*", "-e", "!zz.cmake", "-e", "Zz.cmake"]
     if cfg == "follow":
         return ["-s", os.path.join(base, "follow.yaml")]
     return ["-s", os.path.join(base, "strip.yaml")] if cfg == "strip" else []
@@ -367,6 +370,17 @@ def run(ctx):
     ctx.sweep(functools.partial(run_env, RR=R), ejobs, space="environment deviations", selftest=3, isolate=False)
     ctx.sweep(functools.partial(run_rewrite, RR=R), ["K", "T"], space="rewrite with an unchanged modification time",
               selftest=0, chunk=1, isolate=False)
+    # exclusion patterns whose order matters, under several hash seeds (fresh processes)
+    try:
+        rn = reference("0", "neg")
+        for sd in ("1", "2", "7", "4242"):
+            m = compare(reference(sd, "neg"), rn, f"patterns with a negation under hash seed {sd}")
+            if m:
+                ctx.violation({"kind": "neg-seeds", "seed": sd}, m, cls="bytes hash-seed patterns")
+                break
+        ctx.cov["evaluations"] += 5 * len(INPUTS)
+    except ReferenceFailed as e:
+        ctx.violation({"kind": "reference-run"}, [str(e).replace("\n", " ")[:600]], cls="error reference run")
     seeds = [0, 1, 4242, ctx.seed % (2 ** 32)]
     ctx.sweep(functools.partial(run_seed, RR=R), seeds, space="hash seeds (subprocess)", selftest=0, chunk=1, isolate=False)
     ctx.cov["states"] = len({tuple(sorted(j[0])) for j in hjobs})     # multisets of inputs already documented
@@ -386,6 +400,8 @@ def replay(case):
 
 
 def _replay(case):
+    if isinstance(case, dict) and case.get("kind") == "neg-seeds":
+        return compare(reference(case["seed"], "neg"), reference("0", "neg"), f"patterns with a negation under hash seed {case['seed']}")
     if isinstance(case, dict) and case.get("kind") == "reference-run":
         for cfgname in ("default", "strip", "excl", "follow", "excl2"):
             reference("0", cfgname)
